@@ -21,3 +21,4 @@ pub mod io {
     pub type Result<T> = core::result::Result<T, Error>;
 }
 pub use io::{Error, ErrorKind};
+
